@@ -120,6 +120,10 @@ def check(run: Run) -> None:
                 failures += 1
                 run.report("C17/" + probs[0]["what"].split(":")[0].split(" ")[0], {"definition": text, "type": nm, "ops": [{"op": "construct/compare", "values": repr(vals)[:300], "problems": probs[:3]}]})
             failures += method_tie(run, rng, T, nm, ns, vals, text, rnd * 10 + defs.index((nm, ns, ts)), meth_checks, meth_meta)
+        # the union variant of the templates: one union per round with the member names of the first structure
+        utext = f"union U{rnd} {{ " + " ".join(f"{t} {n};" for n, t in zip(defs[0][1], defs[0][2])) + " };"
+        cs.load(utext, compiled=False)
+        failures += union_tie(run, cs.resolve(f"U{rnd}"), f"U{rnd}", defs[0][1], utext, meth_checks, meth_meta)
 
     # ---- part 2: assignment locality on fixed-size structures ----
     for i in range(600 if thorough else 120):
@@ -344,6 +348,30 @@ def method_tie(run: Run, rng, T, nm, ns, vals, text, cls_id, checks: list, meta:
                    f"(do args <- bind_args Z {M.code_term(pi)} {clist(map(opt, pos_vals), 'option Z')} "
                    f"{clist((f'({cstr(n)}, {opt(vals[n])})' for n in kws), 'string * option Z')}; run_init Z {M.code_term(pi)} args) ({observed})")
             add("run-init", f"{nm}(*{pos_vals!r}, **{{{', '.join(kws)}}})", coq, observed)
+    return 0
+
+
+def union_tie(run: Run, T, nm, ns, text, checks: list, meta: list) -> int:
+    """the code objects of a union's __eq__/__bool__/__hash__/__init__ are what the model generates (code level only: what a union does with
+    the stored members afterwards is C11's subject)"""
+    seen: list = []
+    dflt = {n: T.lookup[n].type.__default__() for n in ns}
+    cterm = lambda c: "CNone" if c is None else f"(CVal {cz(_zval(c, seen))})"  # noqa: E731
+    try:
+        pb, ph = M.read_bool(T.__bool__), M.read_hash(T.__hash__)     # (a union's __eq__ is Union.__eq__, written by hand: C11)
+        pi = M.read_union_init(T.__init__, cterm)
+    except M.Shape as e:
+        run.report("C17/generated-code-shape", {"definition": text, "type": nm, "ops": [{"op": "read the byte code of the generated methods of a union", "observed": str(e),
+                   "expected": "the shape the templates of structure.py compile to (vf/methodsrc.py)"}]})
+        return 1
+    names = clist(map(cstr, ns), "string")
+    fdefs = clist((f"({cstr(n)}, {cz(_zval(dflt[n], seen))})" for n in ns), "string * Z")
+    for kind, gen, parsed in (("bool", f"generate_bool Z {names}", pb), ("hash", f"generate_hash Z {names}", ph),
+                              ("union-init", f"generate_union_init Z {fdefs}", pi)):
+        coq = f"code_eqb Z Z.eqb ({gen}) {M.code_term(parsed)}"
+        checks.append(coq)
+        meta.append({"kind": "code-" + kind, "what": f"code object of a union's __{kind}__ after patching", "coq": coq,
+                     "observed": f"names {parsed['names']}, consts {parsed['consts']}, body {parsed['body']}", "definition": text, "type": nm})
     return 0
 
 
